@@ -1002,9 +1002,9 @@ Proof.
   apply andb_true_iff in S as [S1 _].
   split.
   - apply (proj1 (forallb_forall _ _) S1 f Hin).
-  - pose proof (proj1 (forallb_forall _ _) S3 f Hin) as H. cbv beta in H.
-    destruct (field_ty (f_name f)) as [t|]; [|discriminate].
-    destruct t, (f_ty f); try discriminate; reflexivity.
+  - pose proof (proj1 (forallb_forall _ _) S3 f Hin) as H. cbv beta in H. clear S1 S3 Hin.
+    destruct (field_ty (f_name f)) as [t|]; [|discriminate H].
+    destruct t, (f_ty f); try discriminate H; reflexivity.
 Qed.
 
 Lemma wt_option_typed kv : wt_option kv = true -> wt_typed kv.
@@ -1136,6 +1136,10 @@ Proof.
       now rewrite (construct_ft f types Hin Tf Nd).
 Qed.
 
+(* field k of an outcome has value v *)
+Definition field_is (r : res (settings * list str)) (k : str) (v : pv) : bool :=
+  match r with Ok (st, _) => pv_eqb (sget k st) v | _ => false end.
+
 (* ------------------------------------------------------------------ fpm.toml = --config, partially *)
 Lemma construct_defaults : construct [] = Ok post_defaults.
 Proof. vm_compute. reflexivity. Qed.
@@ -1171,7 +1175,8 @@ Proof.
   destruct (find_field_name _ _ _ F) as [E Hin]. subst k.
   pose proof safe_ok_all as A. rewrite Forall_forall in A. specialize (A f Hin C1 v W C2).
   unfold effective_toml, effective_config, effective. cbn [i_lines i_toml i_cfg i_cli load_settings].
-  unfold run_toml, enc_toml_all. cbn [map fst snd]. rewrite A, run_markdown_empty. reflexivity.
+  unfold run_toml, enc_toml_all. cbn [map fst snd]. rewrite A, run_markdown_empty.
+  cbn [bind fst snd]. unfold apply_config, overlay. cbn [fold_left fst snd]. reflexivity.
 Qed.
 
 (* the three formats, for one option *)
@@ -1194,10 +1199,11 @@ Example formats_agree_nonvacuous :
   config_safe [(s "max_frontpage_items", VInt 4)] = true /\
   wt_option (s "alias", VDict [(s "a", s "b c"); (s "url", s "https://x.org/?q=1")]) = true /\
   wt_option (s "extra_filetypes", VFT [(s "cpp", s "//", None); (s "sh", s "#", Some (s "bash"))]) = true /\
-  exists st, effective_md demo_input [(s "summary", VStr [s "first"; s "second"])] = Ok (st, [])
-             /\ sget (s "summary") st = PStr (s "first" ++ nl ++ s "second")
-             /\ sget (s "src_dir") st = PList [PPath (s "/work/proj/src")].
-Proof. repeat split; try (vm_compute; reflexivity). eexists. repeat split; vm_compute; reflexivity. Qed.
+  field_is (effective_md demo_input [(s "summary", VStr [s "first"; s "second"])])
+           (s "summary") (PStr (s "first" ++ nl ++ s "second")) = true /\
+  field_is (effective_md demo_input [(s "summary", VStr [s "first"; s "second"])])
+           (s "src_dir") (PList [PPath (s "/work/proj/src")]) = true.
+Proof. repeat split; vm_compute; reflexivity. Qed.
 
 (* --config on a post-init-sensitive option: display is not lower-cased *)
 Theorem formats_agree_refuted : ~ formats_agree_statement.
@@ -1208,13 +1214,12 @@ Qed.
 
 (* --config with a bare string for a list option: one path per character *)
 Theorem config_scalar_list_refuted :
-  exists i k v st1 st2, wt_option (k, v) = true /\
-    effective_toml i [(k, v)] = Ok (st1, []) /\ effective_config i [(k, v)] = Ok (st2, []) /\
-    sget k st1 = PList [PPath (s "/work/proj/s1")] /\
-    sget k st2 = PList [PPath (s "/work/proj"); PPath (s "/"); PPath (s "/work/proj/s"); PPath (s "/work/proj/1")].
+  exists i k v, wt_option (k, v) = true /\
+    field_is (effective_toml i [(k, v)]) k (PList [PPath (s "/work/proj/s1")]) = true /\
+    field_is (effective_config i [(k, v)]) k
+             (PList [PPath (s "/work/proj"); PPath (s "/"); PPath (s "/work/proj/s"); PPath (s "/work/proj/1")]) = true.
 Proof.
-  exists demo_input, (s "src_dir"), (VOne (s "./s1")). do 2 eexists.
-  repeat split; vm_compute; reflexivity.
+  exists demo_input, (s "src_dir"), (VOne (s "./s1")). repeat split; vm_compute; reflexivity.
 Qed.
 
 (* ------------------------------------------------------------------ precedence *)
@@ -1251,13 +1256,18 @@ Proof.
   cbn [fst]. destruct (seqb k (f_name f)); [discriminate|exact IH].
 Qed.
 
+Definition precedence_input : input :=
+  mkinput [s "output_dir: from_file"; s "graph: false"] None
+          (Some [(s "output_dir", PStr (s "from_config")); (s "graph", PBool false)])
+          [(s "output_dir", PStr (s "from_cli")); (s "graph", PBool true)]
+          (s "/work/proj") (s "") (s "/opt/ford").
 Example precedence_example :
-  exists st w, effective (mkinput [s "output_dir: from_file"; s "graph: false"] None
-                           (Some [(s "output_dir", PStr (s "from_config")); (s "graph", PBool false)])
-                           [(s "output_dir", PStr (s "from_cli")); (s "graph", PBool true)]
-                           (s "/work/proj") (s "") (s "/opt/ford")) = Ok (st, w)
-    /\ sget (s "output_dir") st = PPath (s "/work/proj/from_cli") /\ sget (s "graph") st = PBool true.
-Proof. do 2 eexists. repeat split; vm_compute; reflexivity. Qed.
+  field_is (effective precedence_input) (s "output_dir") (PPath (s "/work/proj/from_cli")) = true /\
+  field_is (effective precedence_input) (s "graph") (PBool true) = true /\
+  field_ty (s "output_dir") = Some TPath /\
+  convert_setting TPath (s "output_dir") (PStr (s "from_cli")) = Ok (PStr (s "from_cli")) /\
+  aget (s "output_dir") post_defaults <> None.
+Proof. repeat split; try (vm_compute; reflexivity). vm_compute. discriminate. Qed.
 
 (* ------------------------------------------------------------------ unknown keys *)
 Lemma convert_meta_unknown m u vs : field_ty u = None ->
@@ -1267,8 +1277,8 @@ Proof.
   - now rewrite U.
   - destruct (field_ty k) as [t|].
     + destruct (convert_setting t k (PList (map PStr ws))); simpl; try reflexivity.
-      rewrite IH. destruct (convert_meta m) as [[a b]| |]; reflexivity.
-    + rewrite IH. destruct (convert_meta m) as [[a b]| |]; reflexivity.
+      rewrite IH. destruct (convert_meta m) as [[kv0 w0]| |]; reflexivity.
+    + rewrite IH. destruct (convert_meta m) as [[kv0 w0]| |]; reflexivity.
 Qed.
 
 (* project file: an unknown key is reported and dropped, everything else is unchanged *)
@@ -1285,25 +1295,37 @@ Qed.
 Example unknown_key_example :
   field_ty (s "foo") = None /\
   meta_preprocessor [s "project: p"; s "foo: 1"] = meta_preprocessor [s "project: p"] ++ [(s "foo", [s "1"])] /\
-  exists st, run_markdown [s "project: p"] = Ok (st, []) /\ run_markdown [s "project: p"; s "foo: 1"] = Ok (st, [s "foo"]).
-Proof. repeat split. eexists. split; vm_compute; reflexivity. Qed.
+  (match run_markdown [s "project: p"], run_markdown [s "project: p"; s "foo: 1"] with
+   | Ok (st, []), Ok (st', [w]) => seqb w (s "foo") && pv_eqb (sget (s "project") st') (PStr (s "p"))
+   | _, _ => false
+   end) = true.
+Proof. repeat split; vm_compute; reflexivity. Qed.
 
 (* fpm.toml: an unknown key aborts with TypeError *)
 Theorem unknown_key_toml u X : find_field project_schema u = None ->
   run_toml [(u, X)] = Err (s "TypeError") u true.
-Proof. intros U. unfold run_toml, construct. simpl. now rewrite U. Qed.
+Proof.
+  intros U. unfold run_toml, construct.
+  change (first_bad_key [(u, X)])
+    with (match find_field project_schema u with
+          | Some f => if f_init f then first_bad_key [] else Some u
+          | None => Some u
+          end).
+  now rewrite U.
+Qed.
 
 (* --config: an unknown key leaves no trace at all (no report) *)
 Theorem unknown_key_config i u X : aget u post_defaults = None ->
   i_lines i = [] -> i_toml i = None -> i_cfg i = Some [(u, X)] ->
   effective i = effective (mkinput [] None (Some []) (i_cli i) (i_cwd i) (i_dir i) (i_ford i)).
 Proof.
-  intros U L T C. unfold effective. rewrite L, T, C. cbn [i_lines i_toml i_cfg i_cli load_settings].
-  rewrite run_markdown_empty. cbn [bind fst snd]. unfold apply_config, overlay. simpl.
+  intros U L T C.
   assert (E : forall st, aget u st = None -> sset u X st = st).
-  { induction st as [|[k w] st IH]; simpl; [reflexivity|]. destruct (seqb u k); [discriminate|].
+  { induction st as [|[k w] st IH]; cbn [sset aget]; [reflexivity|]. destruct (seqb u k); [discriminate|].
     intros H. now rewrite IH. }
-  now rewrite (E _ U).
+  unfold effective. rewrite L, T, C. cbn [i_lines i_toml i_cfg i_cli i_ford load_settings].
+  rewrite run_markdown_empty. cbn [bind fst snd]. unfold apply_config, overlay. cbn [fold_left fst snd].
+  rewrite (E _ U). reflexivity.
 Qed.
 
 Example unknown_key_examples :
@@ -1318,7 +1340,7 @@ Theorem ill_typed_md_bool key (vals : list str) :
 Proof.
   destruct vals as [|x [|y l]]; intros H; [discriminate| |reflexivity].
   apply andb_true_iff in H as [H1 H2]. apply negb_true_iff in H1, H2.
-  unfold convert_setting, convert_to_bool, str_to_bool. simpl. now rewrite H1, H2.
+  unfold convert_setting. cbn [same_type map]. unfold convert_to_bool, str_to_bool. now rewrite H1, H2.
 Qed.
 
 (* project file, key/value option without its separator: rejected, the message names the option *)
@@ -1326,12 +1348,13 @@ Theorem ill_typed_md_dict key sep x :
   aget key option_separators = Some [sep] -> x <> [] -> existsb (Ascii.eqb sep) x = false ->
   convert_setting TDictStr key (PList [PStr x]) = Err (s "RuntimeError") key true.
 Proof.
-  intros S N E. unfold convert_setting, convert_to_dict. simpl. destruct x as [|c x]; [congruence|].
-  simpl. rewrite S. simpl.
+  intros S N E.
   assert (Sp : forall y, existsb (Ascii.eqb sep) y = false -> split_once sep y = None).
   { induction y as [|d y IH]; simpl; [reflexivity|]. intros H. apply orb_false_iff in H as [H1 H2].
     rewrite Ascii.eqb_sym in H1. now rewrite H1, (IH H2). }
-  now rewrite (Sp _ E).
+  unfold convert_setting. cbn [same_type]. unfold convert_to_dict. cbn [bind filter].
+  destruct x as [|c x]; [congruence|]. cbn [py_truthy]. rewrite S. cbn [mapM].
+  unfold parse_entry. now rewrite (Sp _ E).
 Qed.
 
 Example ill_typed_md_examples :
@@ -1366,11 +1389,9 @@ Proof.
 Qed.
 
 Theorem ill_typed_toml_witness :
-  exists st, run_toml [(s "max_frontpage_items", PStr (s "4"))] = Ok (st, [])
-             /\ sget (s "max_frontpage_items") st = PStr (s "4")
-  /\ exists st2, run_markdown [s "max_frontpage_items: 4"] = Ok (st2, [])
-             /\ sget (s "max_frontpage_items") st2 = PInt 4.
-Proof. eexists. split; [vm_compute; reflexivity|]. split; [vm_compute; reflexivity|]. eexists. split; vm_compute; reflexivity. Qed.
+  field_is (run_toml [(s "max_frontpage_items", PStr (s "4"))]) (s "max_frontpage_items") (PStr (s "4")) = true /\
+  field_is (run_markdown [s "max_frontpage_items: 4"]) (s "max_frontpage_items") (PInt 4) = true.
+Proof. split; vm_compute; reflexivity. Qed.
 
 Theorem ill_typed_refuted_config : ~ ill_typed_config_statement.
 Proof.
@@ -1389,7 +1410,7 @@ Qed.
 (* in general: any text that int() rejects gives an error that does not name the option *)
 Theorem md_int_error_unnamed key x : py_int x = None ->
   convert_setting TInt key (PList [PStr x]) = Err (s "ValueError") key false.
-Proof. intros H. unfold convert_setting, convert_to_int. simpl. now rewrite H. Qed.
+Proof. intros H. unfold convert_setting. cbn [same_type]. unfold convert_to_int. now rewrite H. Qed.
 
 (* ------------------------------------------------------------------ paths *)
 (* the working directory enters only through the project directory it designates *)
@@ -1405,11 +1426,12 @@ Example paths_example :
 Proof. repeat split; vm_compute; reflexivity. Qed.
 
 (* a relative path without ".." stays below the (normalised) project directory *)
-Lemma norm_comps_app a : forall b acc, norm_comps (a ++ b) acc = norm_comps b (rev (norm_comps a acc)).
+Lemma norm_comps_app x : forall b acc, norm_comps (x ++ b) acc = norm_comps b (rev (norm_comps x acc)).
 Proof.
-  induction a as [|c a IH]; intros b acc; simpl.
+  induction x as [|c x IH]; intros b acc; simpl.
   - now rewrite rev_involutive.
-  - destruct (seqb c [] || seqb c (s ".")); [apply IH|]. destruct (seqb c (s "..")); apply IH.
+  - destruct (seqb c [] || seqb c ["."%char]); [apply IH|].
+    destruct (seqb c ["."%char; "."%char]); apply IH.
 Qed.
 
 Lemma norm_comps_nodotdot b : forall acc, existsb (fun c => seqb c (s "..")) b = false ->
@@ -1418,7 +1440,7 @@ Proof.
   induction b as [|c b IH]; intros acc H; simpl.
   - exists []. now rewrite app_nil_r.
   - simpl in H. apply orb_false_iff in H as [H1 H2].
-    destruct (seqb c [] || seqb c (s ".")); [now apply IH|]. rewrite H1.
+    destruct (seqb c [] || seqb c ["."%char]); [now apply IH|]. rewrite H1.
     destruct (IH (c :: acc) H2) as (tail & E). exists (c :: tail). rewrite E. simpl. now rewrite <- app_assoc.
 Qed.
 
